@@ -263,6 +263,7 @@ def main(chk, replay=None):
         ['int-full', 'int-wide', 'int-odd', 'float', 'unsupported', 'patterns', 'analysis']
     if chk.quick:
         slices.append('float')
+    slices.append('reordered')
     mc_reader(chk)
     header_part(chk)
     for sl in slices:
